@@ -58,6 +58,11 @@ CLAIMED = {
    text="Lean theorems for every profile of untied ballots: margins antisymmetric with the listed/unlisted/both-unlisted rule (shares of two candidates add to one); the bounded frontier expansion computes exactly reachability (saturation by cardinality); tiers partition the candidates; every member of a higher tier strictly beats every member of a lower one; no tier can be split; the top tier is dominating and contained in every non-empty dominating set (Smith set); it is a single candidate iff that candidate is a Condorcet winner; DominatingSets elects it. Correspondence: pairwise_dict and dominating_tiers against the model on random and engineered (cycles, nested cycles, exact ties) profiles; monitors: direct margins, brute-force Smith set and split search, Condorcet winner, CondoBorda whole-tiers-then-Borda.",
    note="Trusted: Lean kernel + standard axioms; networkx has_path replaced by the model's own closure (proved). PARTIAL: the code computes margins by expanding short ballots into all completions (ballot_fill); that this equals the declarative share is not a theorem yet - the model's enumeration mirror h2hFill is compared with the declarative h2h on every case by the driver (fill_agrees) and both with the implementation. CondoBorda's straddling-tier choice is covered by C10's scored-tiebreak theorem plus the monitor.",
    ref="DESIGN.md §4 C06"),
+
+ "C19": dict(
+   text="Lean theorems: over the reals (Mathlib) the p-norm distance of two functions on a common finite support is symmetric, zero iff they agree, and satisfies the triangle inequality for every p >= 1 (Minkowski) and for the maximum; the executable rational shares are invariant under reordering and rescaling. Ballot graph, for every n: the node enumeration is exactly the duplicate-free sequences over 1..n of length 1..n except n-1, the edge list exactly the adjacent node pairs, adjacency is symmetric, a ballot of length n-1 is completed to a node. Correspondence: lp_dist for p in {1,2,3,4,inf} against the exact power sums (rel. 1e-9, exact zero = exact zero); BallotGraph(n) nodes and edges compared exhaustively for n = 2..6 on every run; node weights of random profiles.",
+   note="Trusted: Lean kernel + standard axioms; numpy floats in lp_dist (numerical comparison); PARTIAL: the metric theorems are stated for real-valued functions on a common support and the bridge from the rational power sum lpPow (cast to the reals) to lpDist is not a theorem (the correspondence compares lp_dist with lpPow numerically); the recursive build_graph/_relabel is not re-proved: over the property's whole range n = 2..6 it is compared exhaustively with the proved specification; the node-weight total is monitored, not proved.",
+   ref="DESIGN.md §4 C19"),
 }
 TECH = "Lean 4 kernel-checked theorems over a hand-written executable model + differential correspondence check of the model against /repo/src + independent Python monitors"
 
